@@ -109,23 +109,7 @@ def run(ctx):
     ca.instance('worker loop condition reads the terminate event', wt.qualname, okt)
     if not okt:
         res.add(Finding('C13', 'C13.a', 'R-ABSINT', wt.file, wt.qualname, wt.node.lineno, 'worker loop condition', 'the worker loop does not observe the terminate event'))
-    # unbounded joins: only in the recycle path, after the terminate signal
-    joins = []
-    for m in eq.methods.values():
-        for n in ast.walk(m.node):
-            if isinstance(n, ast.Call) and isinstance(n.func, ast.Attribute) and n.func.attr == 'join' and self_attr(n.func.value) == handle:
-                has_tmo = bool(n.args) or any(k.arg == 'timeout' for k in n.keywords)
-                joins.append((m, n, has_tmo))
-    badj = []
-    for m, n, has_tmo in joins:
-        if has_tmo:
-            continue
-        if m is recyc:
-            # must follow terminate.set() in the same block
-            sets = [x.lineno for x in ast.walk(m.node) if isinstance(x, ast.Call) and isinstance(x.func, ast.Attribute) and x.func.attr == 'set']
-            if sets and min(sets) < n.lineno:
-                continue
-        badj.append((m, n))
+    joins, badj = unbounded_joins(eq, handle, recyc)
     ca.instance('no unbounded join on a worker that may be hung (%d joins)' % len(joins), eq.name, not badj)
     for m, n in badj:
         res.add(Finding('C13', 'C13.a', 'R-ABSINT', m.file, m.qualname, n.lineno, norm(n),
@@ -274,3 +258,33 @@ def run(ctx):
         res.add(Finding('C13', 'C13.f', 'R-ORDER', recyc.file, recyc.qualname, recyc.node.lineno, 'worker creation guard',
                         'a replacement worker can be created while another handle is still held'))
     return res
+
+
+def worker_handle(eq):
+    create = eq.lookup('_create_new_player_process')
+    if create is None:
+        raise AnalysisError('anchor-lost method=_create_new_player_process')
+    for n in walk_own(create.node):
+        if isinstance(n, ast.Assign) and self_attr(n.targets[0]) and isinstance(n.value, ast.Call) and norm(n.value.func).endswith('Process'):
+            return self_attr(n.targets[0])
+    raise AnalysisError('anchor-lost role=worker handle field')
+
+
+def unbounded_joins(eq, handle, recyc):
+    """join() calls on the worker handle without timeout; allowed only in the recycle path after the cooperative terminate signal"""
+    joins = []
+    for m in eq.methods.values():
+        for n in ast.walk(m.node):
+            if isinstance(n, ast.Call) and isinstance(n.func, ast.Attribute) and n.func.attr == 'join' and self_attr(n.func.value) == handle:
+                has_tmo = bool(n.args) or any(k.arg == 'timeout' for k in n.keywords)
+                joins.append((m, n, has_tmo))
+    badj = []
+    for m, n, has_tmo in joins:
+        if has_tmo:
+            continue
+        if m is recyc:
+            sets = [x.lineno for x in ast.walk(m.node) if isinstance(x, ast.Call) and isinstance(x.func, ast.Attribute) and x.func.attr == 'set']
+            if sets and min(sets) < n.lineno:
+                continue
+        badj.append((m, n))
+    return joins, badj
